@@ -1076,6 +1076,12 @@ func (in *c15Inliner) inline(call *ast.CallExpr, site *c15Site) ([]ast.Stmt, boo
 				cl := cc.(*ast.CaseClause)
 				cl.Body = replList(cl.Body)
 			}
+		case *ast.SelectStmt:
+			// (a return inside a comm clause leaves the helper like any other return)
+			for _, cc := range t.Body.List {
+				cl := cc.(*ast.CommClause)
+				cl.Body = replList(cl.Body)
+			}
 		case *ast.LabeledStmt:
 			replStmt(t.Stmt)
 		}
